@@ -180,9 +180,12 @@ class DTWSettings:
         return settings
 
     def set_max_dist(self, s1, s2):
-        _, _, ival_fn = innerdistance.inner_dist_fns(self.inner_dist, use_ndim=self.use_ndim)
         if self.use_pruning:
-            self.adj_max_dist = ival_fn(ed.distance(s1, s2, inner_dist=self.inner_dist, use_ndim=self.use_ndim))
+            # Use the bound in the internal representation directly: a round trip through
+            # the result transformation (sqrt, then square) can round the threshold below
+            # the exact bound and prune an alignment that equals the Euclidean distance.
+            self.adj_max_dist = ed.distance(s1, s2, inner_dist=self.inner_dist, use_ndim=self.use_ndim,
+                                            keep_int_repr=True)
 
     def kwargs(self):
         return {
